@@ -32,6 +32,7 @@
   Sel     := * | S n i… | L n item…      item := i idx out|- | r view|- name out|- | v lit out|- | b Cond out|- | k Cond lit lit out|-
              (out = AS name; v = literal, b = a condition as a value, k = CASE WHEN Cond THEN lit ELSE lit END)
   Cond    := cmp op E E | and C C | or C C | not C | isnull neg E | btw neg E E E | in neg E n v… | truth E
+           | like neg E E                      (E [NOT] LIKE E: Model/Like.lean)
   E       := c side idx | l v | n view|- name | s k   (n: reference by name, resolved by the model - own header, then
              the records of the enclosing queries; s: scalar sub-query number k)
   Cond   += ex k | ins neg E k | anys op E k | alls op E k      (EXISTS / IN / ANY / ALL over sub-query k)
@@ -180,6 +181,11 @@ def pCond (vals : Array Profile) : Nat → P CondE
     | "truth" => do
       let (a, ts) ← pExpr vals ts
       pure (.truth a, ts)
+    | "like" => do
+      let (n, ts) ← pBool ts
+      let (a, ts) ← pExpr vals ts
+      let (p, ts) ← pExpr vals ts
+      pure (.like n a p, ts)
     | "ex" => do
       let (k, ts) ← pNat ts
       pure (.exists k, ts)
